@@ -175,6 +175,17 @@ def corpus():
          {"o": P, "op": "select", "dst": "p3", "src": "p2", "cols": [C(None, "b")]},
          {"o": P, "op": "collect", "src": "p3"}, {"o": P, "op": "sqltext", "src": "p3"}]
     cases.append(("chain", p, h))
+    # 6 -- the history uses alias names that are column names of P's data, and P's own alias names
+    h6 = [{"o": H, "op": "create", "dst": "h0", "tbl": "T1"}, {"o": H, "op": "alias", "dst": "h1", "src": "h0", "name": "a"},
+          {"o": H, "op": "alias", "dst": "h2", "src": "h1", "name": "b"}, {"o": H, "op": "alias", "dst": "h3", "src": "h0", "name": "x"},
+          {"o": H, "op": "collect", "src": "h2"}]
+    cases.append(("history-alias-is-column-name", p, h6))
+    p7 = [{"o": P, "op": "create", "dst": "p0", "tbl": "T1"}, {"o": P, "op": "create", "dst": "p1", "tbl": "T2"},
+          {"o": P, "op": "alias", "dst": "p2", "src": "p0", "name": "x"},
+          {"o": P, "op": "join", "dst": "p3", "l": "p2", "r": "p1", "on": ["expr", C(["name", "x"], "a"), C(["frame", "p1"], "a")]},
+          {"o": P, "op": "select", "dst": "p4", "src": "p3", "cols": [C(["name", "x"], "b"), C(["frame", "p1"], "c")]},
+          {"o": P, "op": "collect", "src": "p4"}, {"o": P, "op": "sqltext", "src": "p4"}]
+    cases.append(("history-alias-is-P-alias", p7, h6))
     return cases
 
 
